@@ -125,9 +125,9 @@ theorem inStep_counters (s : Nat) (rate : Rat) (now : Int) (st : IStats) (p : Rt
     · simp [inStep, Rtcp.dest, inSwitch, inDelta, isNackFor, isFirInFor, isPliFor, isSrFor,
         Counters.add_def, countersOf, h]
   | fir sender media es =>
-    by_cases hc : s ∈ es <;> by_cases h : media = s <;>
+    by_cases hc : s ∈ es <;>
       simp [inStep, Rtcp.dest, inSwitch, inDelta, isNackFor, isFirInFor, isPliFor, isSrFor,
-        Counters.add_def, countersOf, h, hc]
+        Counters.add_def, countersOf, hc]
   | rr ssrc rs =>
     cases hc : (Rtcp.rr ssrc rs).dest.contains s
     · rw [inStep_skip _ _ _ _ _ hc]
